@@ -246,15 +246,27 @@ func wMesh3(w *wctx) {
 			plans[g] = append(plans[g], q{w.rng.Intn(14), w.rng.Intn(len(ts))})
 		}
 	}
+	mesh, mts := freshMesh(ts)
+	if mesh.VerifIndexBuilt() {
+		w.behav("harness/fresh-mesh", "fresh mesh already has an index")
+	}
+	// on odd seeds the readers do not start on a fresh mesh: one goroutine has queried it (the
+	// index exists) and then removed a tenth of the faces; the concurrent readers come right after
+	// the last removal. The reference mesh gets the same history.
+	if w.seed%2 == 1 {
+		refMesh.VertexSlice()
+		mesh.VertexSlice()
+		for k := 0; k < len(ts)/10+1; k++ {
+			i := w.rng.Intn(len(ts))
+			refMesh.Remove(refTs[i])
+			mesh.Remove(mts[i])
+		}
+	}
 	want := make([][]string, w.gos)
 	for g := range plans {
 		for _, p := range plans[g] {
 			want[g] = append(want[g], meshQuery(refMesh, refTs, p.kind, p.idx))
 		}
-	}
-	mesh, mts := freshMesh(ts)
-	if mesh.VerifIndexBuilt() {
-		w.behav("harness/fresh-mesh", "fresh mesh already has an index")
 	}
 	w.parallel(w.gos, func(g int, _ *rand.Rand) {
 		for k, p := range plans[g] {
